@@ -287,7 +287,9 @@ Record cfg := Cfg {
   c_to : option str;     (* irc.reply(..., to=<nick|channel>) *)
   c_to_public : bool;    (* irc.isChannel(to) *)
   c_notice : bool;       (* irc.reply(..., notice=True) *)
-  c_withNotice : bool    (* supybot.reply.withNotice (consulted when notice is None) *)
+  c_withNotice : bool;   (* supybot.reply.withNotice (consulted when notice is None) *)
+  c_one : str;           (* _('more message') in the bot's language *)
+  c_many : str           (* _('more messages') *)
 }.
 
 Definition s_privmsg : str := [80; 82; 73; 86; 77; 83; 71].
@@ -329,8 +331,12 @@ Fixpoint dec_go (fuel : nat) (n : N) (acc : str) : str :=
 Definition dec (n : N) : str := dec_go (S (N.size_nat n)) n [].
 
 (* ' ' + bold('(%i %s)' % (len(msgs), more)) *)
-Definition suffix (i n : N) : str :=
-  [32; 2; 40] ++ dec n ++ [32] ++ (if i =? 1 then gen.T12.MORE_ONE else gen.T12.MORE_MANY) ++ [41; 2].
+Definition suffix (k : cfg) (i n : N) : str :=
+  [32; 2; 40] ++ dec n ++ [32] ++ (if i =? 1 then c_one k else c_many k) ++ [41; 2].
+
+(* max(map(len, ['(XX %s)' % _('more message'), '(XX %s)' % _('more messages')] encoded)) + 3 *)
+Definition more_reserve (k : cfg) : N :=
+  N.max (blen ([40; 88; 88; 32] ++ c_one k ++ [41])) (blen ([40; 88; 88; 32] ++ c_many k ++ [41])) + 3.
 
 (* the for loop over enumerate(reversed chunks): msgs in Python order
    (msgs[-1] is the first message to send) *)
@@ -338,7 +344,7 @@ Fixpoint build_msgs (k : cfg) (i : N) (rchunks : list str) (msgs : list str) : l
   match rchunks with
   | [] => msgs
   | ch :: rest =>
-      let ch' := if i =? 0 then ch else ch ++ suffix i (N.of_nat (length msgs)) in
+      let ch' := if i =? 0 then ch else ch ++ suffix k i (N.of_nat (length msgs)) in
       build_msgs k (i + 1) rest (msgs ++ [makeReply k ch'])
   end.
 
@@ -385,7 +391,7 @@ Definition reply (k : cfg) (s0 : str) : res (list str * list str) :=
   if has_surrogate s then Raise UnicodeError                     (* s.encode() *)
   else if (Z.of_N (blen s) <=? allowed)%Z || negb (c_mores k) then Ok ([makeReply k s], [])
   else
-    do chunks <- wrap s (allowed - Z.of_N gen.T12.MORE_RESERVE);
+    do chunks <- wrap s (allowed - Z.of_N (more_reserve k));
     let msgs := build_msgs k 0 (rev chunks) [] in
     let '(msgs, sent) := instant_loop (length msgs) (c_instant k) msgs [] in
     match pop msgs with
@@ -418,10 +424,12 @@ Definition session (k : cfg) (s : str) (number : N) (times : nat) : res (list (l
   Ok (map (map truncate_msg) (fst r :: mores_go times (snd r) number)).
 
 (* ---- `more <nick>`: another user looks at the owner's pending chunks ----
-   Message objects matter here: Irc.takeMsg() tags every PRIVMSG/NOTICE it hands to the driver with
-   'emulatedEcho' (when the server does not echo) and asserts that the tag was not there; the firewall
-   around takeMsg swallows the AssertionError and the message is gone.  So an IrcMsg object can be sent
-   once.  Objects are modelled by an identity number. *)
+   Message objects are modelled by an identity number.  Irc.takeMsg() used to assert that an object it
+   hands to the driver does not yet carry the 'emulatedEcho' tag, and the firewall around it swallowed the
+   AssertionError: an IrcMsg object could be sent once (finding C12.F44, repaired in Misc.more by copying).
+   Since the repair of C19.F47 takeMsg echoes a fresh copy when the object is already tagged and sends the
+   message all the same, so every queued message is delivered, shared object or not; the identities only
+   record what was sent. *)
 Record pmsg := PM { pm_id : N; pm_line : str }.
 Record mstate := MS {
   ms_owner : list pmsg;      (* irc._mores[owner's user@host], also reachable as irc._mores[owner's nick] *)
@@ -431,13 +439,11 @@ Record mstate := MS {
 }.
 Inductive mop : Type := OpOwner | OpPeerNick | OpPeer.   (* owner: more; peer: more <owner's nick>; peer: more *)
 
-(* queueMsg + takeMsg for each message: an already-sent object is dropped *)
+(* queueMsg + takeMsg for each message: each one reaches the driver (tagged or not) *)
 Fixpoint take_all (sent : list N) (msgs : list pmsg) : list str * list N :=
   match msgs with
   | [] => ([], sent)
-  | m :: r =>
-      if mem (pm_id m) sent then take_all sent r
-      else let (out, s') := take_all (pm_id m :: sent) r in (pm_line m :: out, s')
+  | m :: r => let (out, s') := take_all (pm_id m :: sent) r in (pm_line m :: out, s')
   end.
 
 (* msgs = L[-number:]; msgs.reverse(); L[-number:] = [] *)
@@ -529,7 +535,8 @@ Definition vCtx (c : fctx) : value :=
 Definition gCfg (v : value) : cfg :=
   Cfg (gS (nth_v 0 v)) (gS (nth_v 1 v)) (gS (nth_v 2 v)) (gB (nth_v 3 v)) (gB (nth_v 4 v))
       (gB (nth_v 5 v)) (gB (nth_v 6 v)) (gN (nth_v 7 v)) (gN (nth_v 8 v)) (gN (nth_v 9 v))
-      (gB (nth_v 10 v)) (gB (nth_v 11 v)) (gO gS (nth_v 12 v)) (gB (nth_v 13 v)) (gB (nth_v 14 v)) (gB (nth_v 15 v)).
+      (gB (nth_v 10 v)) (gB (nth_v 11 v)) (gO gS (nth_v 12 v)) (gB (nth_v 13 v)) (gB (nth_v 14 v)) (gB (nth_v 15 v))
+      (gS (nth_v 16 v)) (gS (nth_v 17 v)).
 
 (* run: (op payload)
    0 s                -> utf8 bytes, blen
